@@ -160,78 +160,83 @@ def helpers(ctx):
         else:
             ctx.undecided('C11.F1', fl, 'load call of _load_multiple_files not recognised')
     # _load_multiple_spike_times
-    ft = repo.func(MG, '_load_multiple_spike_times')
-    I = MI(repo, unroll=1, inline_depth=0)
-    outs = I.run(ft)
-    good = [val for kind, val, st in outs if kind == 'return']
-    VOC = {'_concat', 'np.argsort', 'np.sort', 'np.lexsort', 'np.concatenate', 'np.flip', 'np.take', 'np.unique', 'np.arange', 'len', 'sorted'}
-    okt, why, und = False, '', ''
-    # a shortcut return of the identity order (`return concatenated, np.arange(n)`) is the stable argsort exactly when the concatenated times are non-decreasing: the guard
-    # decides. np.diff on the on-disk dtype is the recognised wrong form (spike times are stored unsigned by KiloSort: the differences wrap and are never negative, so the
-    # test always passes and the probes are concatenated instead of interleaved); an element-wise comparison of neighbours is the good form.
-    ident = []
-    for r_ in ft.returns():
-        rv = r_.value
-        if isinstance(rv, ast.Tuple) and len(rv.elts) == 2 and isinstance(ft.expand(rv.elts[1]), ast.Call) and dotted(ft.expand(rv.elts[1]).func) in ('np.arange', 'range'):
-            ident.append(r_)
-    for r_ in ident:
-        tests = [i_.test if br_ == 'body' else ast.UnaryOp(op=ast.Not(), operand=i_.test) for i_, br_ in q.enclosing_ifs(ft, r_)]
-        g_ok = g_bad = None
-        for t_ in tests:
-            tx = ft.expand(t_)
-            if Pat().any(['np.all(np.diff(E_x) >= 0)', 'np.all(np.diff(E_x) > 0)', '(np.diff(E_x) >= 0).all()', 'not np.any(np.diff(E_x) < 0)', 'not (np.diff(E_x) < 0).any()',
-                          'np.all(np.diff(E_x) >= 0, REST)', 'np.diff(E_x).min() >= 0', 'np.min(np.diff(E_x)) >= 0'], tx):
-                signed = any(isinstance(n_, ast.Call) and ((isinstance(n_.func, ast.Attribute) and n_.func.attr == 'astype') or dotted(n_.func) in ('np.int64', 'np.asarray', 'np.array') and
-                             any(k_.arg == 'dtype' for k_ in n_.keywords)) for n_ in ast.walk(tx))
-                if not signed:
-                    g_bad = t_
-            elif Pat().any(['np.all(E_x[1:] >= E_x[:-1])', 'np.all(E_x[:-1] <= E_x[1:])', '(E_x[1:] >= E_x[:-1]).all()', '(E_x[:-1] <= E_x[1:]).all()',
-                            'not np.any(E_x[1:] < E_x[:-1])', 'not np.any(E_x[:-1] > E_x[1:])'], tx):
-                g_ok = t_
-        if g_bad is not None:
-            ctx.violated('C11.A1', ft, g_bad, 'the identity order is returned when `%s`: np.diff is taken in the stored dtype of the spike times, and differences of UNSIGNED times wrap '
-                         'instead of becoming negative, so the test passes for interleaved probes too and their spikes are concatenated, not merged in time order' % unparse(g_bad)[:80])
-        elif g_ok is not None:
-            ctx.holds('C11.A1', ft, 'the identity order is returned only when every concatenated time is >= its predecessor (the stable argsort of a sorted array)', g_ok)
+    try:
+        ft = repo.func(MG, '_load_multiple_spike_times')
+    except AnchorMissing:
+        ft = None
+        ctx.undecided('C11.A1', MG + ':Merger.write_spike_times', 'the helper _load_multiple_spike_times no longer exists: how the merged spike order is computed was restructured and is not judged')
+    if ft is not None:
+        I = MI(repo, unroll=1, inline_depth=0)
+        outs = I.run(ft)
+        good = [val for kind, val, st in outs if kind == 'return']
+        VOC = {'_concat', 'np.argsort', 'np.sort', 'np.lexsort', 'np.concatenate', 'np.flip', 'np.take', 'np.unique', 'np.arange', 'len', 'sorted'}
+        okt, why, und = False, '', ''
+        # a shortcut return of the identity order (`return concatenated, np.arange(n)`) is the stable argsort exactly when the concatenated times are non-decreasing: the guard
+        # decides. np.diff on the on-disk dtype is the recognised wrong form (spike times are stored unsigned by KiloSort: the differences wrap and are never negative, so the
+        # test always passes and the probes are concatenated instead of interleaved); an element-wise comparison of neighbours is the good form.
+        ident = []
+        for r_ in ft.returns():
+            rv = r_.value
+            if isinstance(rv, ast.Tuple) and len(rv.elts) == 2 and isinstance(ft.expand(rv.elts[1]), ast.Call) and dotted(ft.expand(rv.elts[1]).func) in ('np.arange', 'range'):
+                ident.append(r_)
+        for r_ in ident:
+            tests = [i_.test if br_ == 'body' else ast.UnaryOp(op=ast.Not(), operand=i_.test) for i_, br_ in q.enclosing_ifs(ft, r_)]
+            g_ok = g_bad = None
+            for t_ in tests:
+                tx = ft.expand(t_)
+                if Pat().any(['np.all(np.diff(E_x) >= 0)', 'np.all(np.diff(E_x) > 0)', '(np.diff(E_x) >= 0).all()', 'not np.any(np.diff(E_x) < 0)', 'not (np.diff(E_x) < 0).any()',
+                              'np.all(np.diff(E_x) >= 0, REST)', 'np.diff(E_x).min() >= 0', 'np.min(np.diff(E_x)) >= 0'], tx):
+                    signed = any(isinstance(n_, ast.Call) and ((isinstance(n_.func, ast.Attribute) and n_.func.attr == 'astype') or dotted(n_.func) in ('np.int64', 'np.asarray', 'np.array') and
+                                 any(k_.arg == 'dtype' for k_ in n_.keywords)) for n_ in ast.walk(tx))
+                    if not signed:
+                        g_bad = t_
+                elif Pat().any(['np.all(E_x[1:] >= E_x[:-1])', 'np.all(E_x[:-1] <= E_x[1:])', '(E_x[1:] >= E_x[:-1]).all()', '(E_x[:-1] <= E_x[1:]).all()',
+                                'not np.any(E_x[1:] < E_x[:-1])', 'not np.any(E_x[:-1] > E_x[1:])'], tx):
+                    g_ok = t_
+            if g_bad is not None:
+                ctx.violated('C11.A1', ft, g_bad, 'the identity order is returned when `%s`: np.diff is taken in the stored dtype of the spike times, and differences of UNSIGNED times wrap '
+                             'instead of becoming negative, so the test passes for interleaved probes too and their spikes are concatenated, not merged in time order' % unparse(g_bad)[:80])
+            elif g_ok is not None:
+                ctx.holds('C11.A1', ft, 'the identity order is returned only when every concatenated time is >= its predecessor (the stable argsort of a sorted array)', g_ok)
+            else:
+                ctx.undecided('C11.A1', ft, 'a return of the identity spike order under a condition that was not recognised', r_)
+        for v in good:
+            v = _canon(_strip(v))
+            if ident and is_t(v) and v[1] == 'tuple' and len(v) == 4 and is_t(v[3]) and v[3][1] == 'call' and v[3][2] in ('np.arange', 'range'):
+                continue
+            if is_t(v) and v[1] == 'tuple' and len(v) == 4:
+                times, order = v[2], v[3]
+                cat = T('call', '_concat', _seq_param(ft))
+                cats = (cat, T('call', '_concat', _seq_param(ft), T('kw', 'axis', C(0))))
+                o_ok = is_t(order) and order[1] == 'call' and order[2] == 'np.argsort' and len(order) > 3 and order[3] in cats
+                kws = {a[2]: a[3] for a in order[4:] if is_t(a) and a[1] == 'kw'} if is_t(order) else {}
+                kinds = [kws['kind']] if 'kind' in kws else []
+                stable = bool(kinds) and is_c(kinds[0]) and kinds[0][1] in ('stable', 'mergesort')
+                t_ok = any(times == T('index', c_, order) for c_ in cats)
+                okt = o_ok and stable and t_ok
+                if not o_ok:
+                    if _vocab(order, VOC):
+                        why = 'the order is %s, not argsort of the concatenated times' % show(order)[:70]
+                    else:
+                        und = 'computation of the spike order `%s` not recognised' % show(order)[:70]
+                elif not stable:
+                    if not kinds or is_c(kinds[0]):
+                        why = 'the argsort is not stable (kind=%s): simultaneous spikes are not kept in input order' % (show(kinds[0]) if kinds else 'default quicksort')
+                    else:
+                        und = 'sort kind `%s` not a constant' % show(kinds[0])
+                elif not t_ok:
+                    if _vocab(times, VOC):
+                        why = 'the merged times are %s, not concatenated times[order]' % show(times)[:60]
+                    else:
+                        und = 'computation of the merged times `%s` not recognised' % show(times)[:60]
+            else:
+                und = '_load_multiple_spike_times does not return a pair (%s)' % show(v)[:60]
+        if why:
+            ctx.violated('C11.A1', ft, '_load_multiple_spike_times', why)
+        elif okt and not und:
+            ctx.holds('C11.A1', ft, 'spike_order = stable argsort of the concatenated spike times; merged times = concatenated[order]', '_load_multiple_spike_times')
         else:
-            ctx.undecided('C11.A1', ft, 'a return of the identity spike order under a condition that was not recognised', r_)
-    for v in good:
-        v = _canon(_strip(v))
-        if ident and is_t(v) and v[1] == 'tuple' and len(v) == 4 and is_t(v[3]) and v[3][1] == 'call' and v[3][2] in ('np.arange', 'range'):
-            continue
-        if is_t(v) and v[1] == 'tuple' and len(v) == 4:
-            times, order = v[2], v[3]
-            cat = T('call', '_concat', _seq_param(ft))
-            cats = (cat, T('call', '_concat', _seq_param(ft), T('kw', 'axis', C(0))))
-            o_ok = is_t(order) and order[1] == 'call' and order[2] == 'np.argsort' and len(order) > 3 and order[3] in cats
-            kws = {a[2]: a[3] for a in order[4:] if is_t(a) and a[1] == 'kw'} if is_t(order) else {}
-            kinds = [kws['kind']] if 'kind' in kws else []
-            stable = bool(kinds) and is_c(kinds[0]) and kinds[0][1] in ('stable', 'mergesort')
-            t_ok = any(times == T('index', c_, order) for c_ in cats)
-            okt = o_ok and stable and t_ok
-            if not o_ok:
-                if _vocab(order, VOC):
-                    why = 'the order is %s, not argsort of the concatenated times' % show(order)[:70]
-                else:
-                    und = 'computation of the spike order `%s` not recognised' % show(order)[:70]
-            elif not stable:
-                if not kinds or is_c(kinds[0]):
-                    why = 'the argsort is not stable (kind=%s): simultaneous spikes are not kept in input order' % (show(kinds[0]) if kinds else 'default quicksort')
-                else:
-                    und = 'sort kind `%s` not a constant' % show(kinds[0])
-            elif not t_ok:
-                if _vocab(times, VOC):
-                    why = 'the merged times are %s, not concatenated times[order]' % show(times)[:60]
-                else:
-                    und = 'computation of the merged times `%s` not recognised' % show(times)[:60]
-        else:
-            und = '_load_multiple_spike_times does not return a pair (%s)' % show(v)[:60]
-    if why:
-        ctx.violated('C11.A1', ft, '_load_multiple_spike_times', why)
-    elif okt and not und:
-        ctx.holds('C11.A1', ft, 'spike_order = stable argsort of the concatenated spike times; merged times = concatenated[order]', '_load_multiple_spike_times')
-    else:
-        ctx.undecided('C11.A1', ft, und or 'no return of _load_multiple_spike_times was reached')
+            ctx.undecided('C11.A1', ft, und or 'no return of _load_multiple_spike_times was reached')
     fa = repo.func(MG, '_load_multiple_spike_arrays')
     outs = MI(repo, unroll=1, inline_depth=0).run(fa)
     good = [_canon(_strip(val)) for kind, val, st in outs if kind == 'return']
@@ -254,20 +259,24 @@ def a1_saved(ctx):
     # write_spike_times
     f = repo.lookup_method(cls, 'write_spike_times')
     outs = MI(repo, unroll=1, inline_depth=0).run(f, env={f.params[0]: me})
-    ft_, fa_ = repo.func(MG, '_load_multiple_spike_times'), repo.func(MG, '_load_multiple_spike_arrays')
+    fa_ = repo.func(MG, '_load_multiple_spike_arrays')
+    try:
+        ft_ = repo.func(MG, '_load_multiple_spike_times')
+    except AnchorMissing:
+        ft_ = None
     VOCW = {'_load_multiple_spike_times', '_load_multiple_spike_arrays', '_load_multiple_files', '_concat', 'np.argsort', 'np.sort', 'np.take', 'np.concatenate', 'len', 'sorted'}
     ok = known_voc = False
     for kind, val, st in outs:
         sv = [e for e in st.trace if e[0] == 'save']
         so = [e for e in st.trace if e[0] == 'store' and e[2] == 'spike_order']
-        if len(sv) == 1 and sv[0][1] == C('spike_times.npy') and so:
+        if ft_ is not None and len(sv) == 1 and sv[0][1] == C('spike_times.npy') and so:
             src = T('call', '_load_multiple_spike_times', _seq_arg(ft_, T('call', '_load_multiple_files', C('spike_times.npy'), subdirs)))
             got_t, got_o = _strip(sv[0][2]), _strip(so[0][3])
             ok = got_t == T('item', src, C(0)) and got_o == T('item', src, C(1))
             known_voc = _vocab(got_t, VOCW) and _vocab(got_o, VOCW)
     if ok:
         ctx.holds('C11.A1', f, 'spike_times.npy = merged times of spike_times.npy of all inputs; self.spike_order = the matching order', 'write_spike_times')
-    elif known_voc:
+    elif known_voc and ft_ is not None:
         ctx.violated('C11.A1', f, 'write_spike_times', 'write_spike_times does not save the merged times and register the matching order')
     else:
         ctx.undecided('C11.A1', f, 'write_spike_times: the saved times / registered order were not recognised')
